@@ -17,7 +17,7 @@ from rustmini import (Unparsed, tokenize, find_fn, find_macro, find_impl, find_m
                       parse_expr_tokens, split_commas, params_of, strip_attrs_cfg)
 
 REPO = os.environ.get('VERIF_REPO', '/repo')
-OUT = os.path.join(os.path.dirname(os.path.abspath(__file__)), '..', 'lean', 'MVoro', 'Gen')
+OUT = os.environ.get('VERIF_GEN_OUT') or os.path.join(os.path.dirname(os.path.abspath(__file__)), '..', 'lean', 'MVoro', 'Gen')
 BACKENDS = ['ibig', 'dashu', 'rug', 'malachite', 'num_bigint']
 
 
@@ -1070,6 +1070,604 @@ def gen_halfspace():
         out.append(text)
     return '\n'.join(out)
 
+
+# --------------------------------------------------------------------------
+# Fragment 8: input handling per dimensionality (C08, C13, C16): `Generator::new`, `Dimensionality::vector_is_valid`,
+# the axis-normalisation block of both builders, the active-subspace radius of `Vertex::from_dual`,
+# the safety radius formula
+# --------------------------------------------------------------------------
+import extract2
+ProcEmitter = extract2.make_proc_emitter(FloatEmitter)
+VARS = "variable {α : Type} [Add α] [Sub α] [Mul α] [Div α] [Neg α] [NatCast α] [Scalar α]\n"
+
+
+def is_dim_iflet(s):
+    return s[0] == 'expr' and s[1][0] == 'iflet' and s[1][2] == ('path', ['dimensionality'])
+
+
+def emit_normalise(name, body_tokens, what):
+    ss = extract2.leading_stmts(body_tokens, is_dim_iflet)
+    if not ss:
+        raise Unparsed("normalisation block of %s not found" % what)
+    pe = ProcEmitter('Plane')
+    env = {'anchor': ('anchor', 'V3'), 'width': ('width', 'V3'), 'dimensionality': ('dimensionality', 'Dim')}
+    lines = ["  let mut anchor := anchor", "  let mut width := width"]
+    pe.stmts(ss, env, lines, "  ")
+    return ("/-- the axis normalisation block at the top of `%s` (%d statements) -/\n" % (what, len(ss)) +
+            "def %s (anchor width : V3 α) (dimensionality : Dim) : V3 α × V3 α := Id.run do\n" % name +
+            '\n'.join(lines) + "\n  return (anchor, width)\n")
+
+
+def gen_diminput():
+    out = [VARS]
+    # Generator::new
+    toks = tokenize(strip_attrs_cfg(read('src/voronoi/generator.rs')))
+    gs, ge = find_impl(toks, ['Generator'])
+    params, body, _ = find_fn(toks[gs:ge], 'new')
+    blk = parse_body(body)
+    pe = ProcEmitter('Plane')
+    env = {}
+    for nm, ty in params_of(params):
+        if nm == 'loc':
+            env[nm] = (nm, 'V3')
+        elif nm == 'dimensionality':
+            env[nm] = (nm, 'Dim')
+    if set(env) != {'loc', 'dimensionality'}:
+        raise Unparsed("Generator::new parameters")
+    lines = []
+    pe.stmts(blk[1], env, lines, "  ")
+    tail = blk[2]
+    if tail is None or tail[0] != 'struct' or 'loc' not in dict(tail[2]):
+        raise Unparsed("Generator::new result")
+    t, ty = pe.expr(dict(tail[2])['loc'], env)
+    if ty != 'V3':
+        raise Unparsed("Generator::new loc type")
+    out.append("/-- `Generator::new`: the stored position -/\ndef generatorNew (loc : V3 α) (dimensionality : Dim) : V3 α := Id.run do\n" +
+               '\n'.join(lines) + "\n  return %s\n" % t)
+    # Dimensionality::vector_is_valid
+    vt = tokenize(strip_attrs_cfg(read('src/voronoi.rs')))
+    ds, de = find_impl(vt, ['Dimensionality'])
+    params, body, _ = find_fn(vt[ds:de], 'vector_is_valid')
+    blk = parse_body(body)
+    pe = ProcEmitter('Dim')
+    env = {'self': ('self_', 'Dim'), 'v': ('v', 'V3')}
+    if blk[1] or blk[2] is None:
+        raise Unparsed("vector_is_valid body")
+    t, ty = pe.expr(blk[2], env)
+    if ty != 'B':
+        raise Unparsed("vector_is_valid type")
+    out.append("/-- `Dimensionality::vector_is_valid` -/\ndef vectorIsValid (self_ : Dim) (v : V3 α) : Bool :=\n  %s\n" % t)
+    # normalisation blocks
+    _, body, _ = find_fn(vt, 'build_internal')
+    out.append(emit_normalise('normaliseDirect', body, 'Voronoi::build_internal'))
+    _, body, _ = find_fn_in_impls(vt, 'VoronoiIntegrator', 'build')
+    out.append(emit_normalise('normaliseIntegrator', body, 'VoronoiIntegrator::build'))
+    return '\n'.join(out)
+
+
+def gen_vertexradius():
+    out = [VARS]
+    # Vertex::from_dual
+    ct = tokenize(strip_attrs_cfg(read('src/voronoi/convex_cell.rs')))
+    vs, ve = find_impl(ct, ['Vertex'])
+    params, body, _ = find_fn(ct[vs:ve], 'from_dual')
+    blk = parse_body(body)
+    pe = ProcEmitter('Plane')
+    env = {'gen_loc': ('gen_loc', 'V3'), 'dimensionality': ('dimensionality', 'Dim')}
+    pn = [nm for nm, _ in params_of(params)]
+    if pn[:3] != ['i', 'j', 'k'] or 'half_spaces' not in pn:
+        raise Unparsed("from_dual parameters")
+
+    class FD(ProcEmitter):
+        def expr(self, e, env):
+            # `half_spaces[i].plane` -> the plane parameter `pi`
+            if e[0] == 'field' and e[2] == 'plane' and e[1][0] == 'index' and e[1][1] == ('path', ['half_spaces']) and e[1][2][0] == 'path' and e[1][2][1][0] in ('i', 'j', 'k'):
+                return 'p' + e[1][2][1][0], 'Plane'
+            return ProcEmitter.expr(self, e, env)
+    pe = FD('Plane')
+    lines = []
+    pe.stmts(blk[1], env, lines, "  ")
+    tail = blk[2]
+    if tail is None or tail[0] != 'struct':
+        raise Unparsed("from_dual result")
+    f = dict(tail[2])
+    tl, tyl = pe.expr(f['loc'], env)
+    tr, tyr = pe.expr(f['radius2'], env)
+    if (tyl, tyr) != ('V3', 'F'):
+        raise Unparsed("from_dual field types")
+    dual = f['dual']
+    if dual[0] != 'array' or any(x[0] != 'path' for x in dual[1]):
+        raise Unparsed("from_dual dual")
+    out.append("/-- `Vertex::from_dual`: position and squared radius in the active subspace -/\n"
+               "def vertexFromDual (pi pj pk : Plane α) (gen_loc : V3 α) (dimensionality : Dim) : V3 α × α :=\n" +
+               '\n'.join(lines) + "\n  (%s, %s)\n" % (tl, tr))
+    out.append("/-- order in which `from_dual` stores its three plane indices -/\ndef vertexDualOrder : List String := [%s]\n" %
+               ', '.join('"%s"' % x[1][0] for x in dual[1]))
+    # update_safety_radius
+    cs, ce = find_impl(ct, ['ConvexCell'])
+    _, body, _ = find_fn(ct, 'update_safety_radius')
+    blk = parse_body(body)
+    chain = None
+    formula = None
+    for s in blk[1]:
+        if s[0] == 'let' and s[2] == ('pvar', 'max_dist_2'):
+            chain = method_chain(s[4])
+        if s[0] == 'assign' and s[1] == '=' and s[2] == ('field', ('path', ['self']), 'safety_radius'):
+            pe = ProcEmitter('Plane')
+            formula, fty = pe.expr(s[3], {'max_dist_2': ('max_dist_2', 'F')})
+            if fty != 'F':
+                raise Unparsed("safety radius formula type")
+    if chain is None or formula is None:
+        raise Unparsed("update_safety_radius form")
+    out.append("/-- `update_safety_radius`: the radius as a function of the maximal squared vertex distance -/\n"
+               "def safetyRadiusOfMax (max_dist_2 : α) : α :=\n  %s\n" % formula)
+    out.append("/-- how `update_safety_radius` obtains `max_dist_2` (method chain on `self`) -/\ndef safetyRadiusChain : List String := [%s]\n" %
+               ', '.join('"%s"' % c for c in chain))
+    return '\n'.join(out)
+
+
+def find_fn_in_impls(tokens, type_name, fn_name):
+    """`fn fn_name` inside any inherent `impl ... type_name ... {` block (no `for`)"""
+    i = 0
+    while i < len(tokens):
+        if tokens[i] == ('id', 'impl'):
+            k = i + 1
+            while tokens[k][1] != '{':
+                k += 1
+            hdr = [t[1] for t in tokens[i + 1:k]]
+            e = find_matching(tokens, k, '{', '}')
+            if type_name in hdr and 'for' not in hdr:
+                try:
+                    return find_fn(tokens[k + 1:e], fn_name)
+                except Unparsed:
+                    pass
+            i = e
+        i += 1
+    raise Unparsed("fn %s::%s not found" % (type_name, fn_name))
+
+
+def method_chain(e):
+    """`self.a.iter().map(|v| v.f).max_by(|a, b| a.partial_cmp(b)...)...` -> ["a", "iter", "map:f", "max_by:partial_cmp", ...]"""
+    out = []
+    while True:
+        if e[0] == 'mcall':
+            tag = e[2]
+            if e[3] and e[3][0][0] == 'closure':
+                b = e[3][0][2]
+                while b[0] == 'mcall' and b[1][0] == 'mcall':
+                    b = b[1]
+                if b[0] == 'field':
+                    tag += ':' + b[2]
+                elif b[0] == 'mcall':
+                    tag += ':' + b[2]
+            out.append(tag)
+            e = e[1]
+        elif e[0] == 'field':
+            out.append(e[2])
+            e = e[1]
+        elif e[0] == 'path':
+            out.append('::'.join(e[1]))
+            break
+        else:
+            raise Unparsed("method chain")
+    return list(reversed(out))
+
+
+# --------------------------------------------------------------------------
+# Fragment 9: the per-cell construction steps of src/voronoi/convex_cell.rs and `HalfSpace::right_loc` (C01, C05, C10, C16, C18)
+# --------------------------------------------------------------------------
+
+def find_stmt(stmts, pred):
+    for s in stmts:
+        if pred(s):
+            return s
+    return None
+
+
+def describe_point(e):
+    """which point an argument of the exact predicate is: gen | dual0..2 | new"""
+    # simulation_boundary.iloc(X)
+    if e[0] == 'mcall' and e[2] == 'iloc' and len(e[3]) == 1:
+        x = e[3][0]
+        if x == ('field', ('path', ['self']), 'loc'):
+            return 'gen'
+        if x[0] == 'mcall' and x[2] == 'right_loc':
+            args = x[3]
+            if len(args) != 2 or args[0] != ('field', ('path', ['self']), 'idx') or args[1] != ('path', ['generators']):
+                raise Unparsed("right_loc arguments")
+            r = x[1]
+            if r == ('path', ['p']):
+                return 'new'
+            if r[0] == 'index' and r[1] == ('field', ('path', ['self']), 'clipping_planes') and r[2][0] == 'index' and r[2][1] == ('path', ['dual']) and r[2][2][0] == 'num':
+                return 'dual' + r[2][2][1]
+    raise Unparsed("argument of the exact predicate")
+
+
+def gen_cellinit():
+    out = [VARS]
+    ct = tokenize(strip_attrs_cfg(read('src/voronoi/convex_cell.rs')))
+    # ---- ConvexCell::init: the eight initial dual triples
+    _, body, _ = find_fn_in_impls(ct, 'ConvexCell', 'init')
+    blk = parse_body(body)
+    vs = find_stmt(blk[1], lambda s: s[0] == 'let' and s[2] == ('pvar', 'vertices'))
+    if vs is None or vs[4][0] != 'macro' or vs[4][1] != 'vec':
+        raise Unparsed("ConvexCell::init vertices")
+    from rustmini import parse_expr_tokens
+    triples = []
+    for part in split_commas(vs[4][2]):
+        e = parse_expr_tokens(part)
+        if e[0] != 'call' or e[1] != ('path', ['Vertex', 'from_dual']) or any(a[0] != 'num' for a in e[2][:3]):
+            raise Unparsed("initial vertex form")
+        if e[2][3:] != [('path', ['clipping_planes']), ('path', ['loc']), ('path', ['dimensionality'])]:
+            raise Unparsed("initial vertex arguments")
+        triples.append(tuple(int(a[1]) for a in e[2][:3]))
+    out.append("/-- the dual triples of the initial box, `ConvexCell::init` -/\ndef initialDuals : List (Nat × Nat × Nat) := [%s]\n" %
+               ', '.join("(%d, %d, %d)" % t for t in triples))
+    return '\n'.join(out)
+
+
+def gen_buildstep():
+    out = [VARS]
+    ct = tokenize(strip_attrs_cfg(read('src/voronoi/convex_cell.rs')))
+    # ---- ConvexCell::build: one round of the clipping loop
+    _, body, _ = find_fn_in_impls(ct, 'ConvexCell', 'build')
+    blk = parse_body(body)
+    loop = find_stmt(blk[1], lambda s: s[0] == 'for')
+    if loop is None or loop[1] != ('ptuple', [('pvar', 'idx'), ('pvar', 'shift')]) or loop[2] != ('path', ['nearest_neighbours']):
+        raise Unparsed("clipping loop header")
+    first = find_stmt(blk[1], lambda s: s[0] == 'expr' and s[1][0] == 'macro' and s[1][1] == 'assert_eq')
+    if first is None:
+        raise Unparsed("first-neighbour assertion not found")
+    ftxt = ' '.join(t[1] for t in first[1][2])
+    out.append("/-- the first candidate is consumed and must be the generator itself: `assert_eq!(%s)` -/\ndef firstCandidateConsumed : Bool := %s\n" %
+               (ftxt[:120].replace('-/', '- /'), 'true' if ('nearest_neighbours . next ( )' in ftxt and 'cell . idx' in ftxt) else 'false'))
+
+    class BS(ProcEmitter):
+        def expr(self, e, env):
+            if e == ('index', ('path', ['generators']), ('path', ['idx'])):
+                return 'generator_loc', 'GenLoc'
+            return ProcEmitter.expr(self, e, env)
+    pe = BS('Plane')
+    pe.ret_wrap = lambda e, env: 'none' if e == ('path', ['cell']) else (_ for _ in ()).throw(Unparsed("return value in the clipping loop"))
+    env = {'cell': ('cell', 'CellRec'), 'shift': ('shift', 'OptV3')}
+    body_stmts = loop[3][1]
+    if loop[3][2] is not None or not body_stmts:
+        raise Unparsed("clipping loop body")
+    last = body_stmts[-1]
+    lines = []
+    pe.stmts(body_stmts[:-1], env, lines, "  ")
+    if not (last[0] == 'expr' and last[1][0] == 'mcall' and last[1][1] == ('path', ['cell']) and last[1][2] == 'clip_by_plane'):
+        raise Unparsed("clipping loop does not end with clip_by_plane")
+    hs = last[1][3][0]
+    if hs[0] != 'call' or hs[1] != ('path', ['HalfSpace', 'new']) or len(hs[2]) != 4:
+        raise Unparsed("HalfSpace::new call")
+    tn, tyn = pe.expr(hs[2][0], env)
+    tp, typ = pe.expr(hs[2][1], env)
+    if (tyn, typ) != ('V3', 'V3'):
+        raise Unparsed("HalfSpace::new argument types")
+    right_ok = hs[2][2] == ('call', ('path', ['Some']), [('path', ['idx'])]) and hs[2][3] == ('path', ['shift'])
+    out.append("/-- one round of the clipping loop of `ConvexCell::build` (guards: %s) -/\n" % '; '.join(pe.guards).replace('-/', '- /') +
+               "def buildStep (cell : CellRec α) (generator_loc : V3 α) (shift : Option (V3 α)) : Option (V3 α × V3 α) := Id.run do\n" +
+               '\n'.join(lines) + "\n  return some (%s, %s)\n" % (tn, tp))
+    out.append("/-- the new half space carries the candidate's index and shift: `HalfSpace::new(n, p, Some(idx), shift)` -/\ndef buildStepTagsNeighbour : Bool := %s\n" % ('true' if right_ok else 'false'))
+    return '\n'.join(out)
+
+
+def gen_clipvertex():
+    out = [VARS]
+    ct = tokenize(strip_attrs_cfg(read('src/voronoi/convex_cell.rs')))
+    # ---- clip_by_plane: the decision for one vertex, the arguments of the exact predicate, the new vertices
+    _, body, _ = find_fn_in_impls(ct, 'ConvexCell', 'clip_by_plane')
+    blk = parse_body(body)
+    wl = find_stmt(blk[1], lambda s: s[0] == 'while')
+    if wl is None:
+        raise Unparsed("vertex loop of clip_by_plane")
+    ws = [s for s in wl[2][1] if s[0] != 'attr'] + ([('expr', wl[2][2])] if wl[2][2] is not None else [])
+    if len(ws) != 3 or ws[0][0] != 'let' or ws[0][2] != ('pvar', 'clip') or ws[0][4][0] != 'mcall' or ws[0][4][2] != 'clip' or ws[0][4][1] != ('path', ['p']):
+        raise Unparsed("vertex loop: filter call")
+    if ws[0][4][3] != [('field', ('index', ('field', ('path', ['self']), 'vertices'), ('path', ['i'])), 'loc')]:
+        raise Unparsed("vertex loop: filter argument")
+    if ws[1][0] != 'expr' or ws[1][1][0] != 'if' or ws[1][1][3] is not None or ws[2][0] != 'expr' or ws[2][1][0] != 'if':
+        raise Unparsed("vertex loop: decision statements")
+    pe = ProcEmitter('Plane')
+    env = {'clip': ('clip', 'F')}
+    c1, t1 = pe.expr(ws[1][1][1], env)
+    c2, t2 = pe.expr(ws[2][1][1], env)
+    if (t1, t2) != ('B', 'B'):
+        raise Unparsed("vertex loop: conditions")
+    inner = [s for s in ws[1][1][2][1] if s[0] != 'attr' and not (s[0] == 'expr' and s[1][0] == 'call')]
+    lets = {}
+    asg = None
+    for s in inner:
+        if s[0] == 'let' and s[2][0] == 'pvar':
+            lets[s[2][1]] = s[4]
+        elif s[0] == 'assign' and s[1] == '=' and s[2] == ('path', ['clip']):
+            asg = s[3]
+        else:
+            raise Unparsed("statement in the exact branch")
+    if asg is None or asg[0] != 'call' or asg[1] != ('path', ['in_sphere_test_exact']) or len(asg[2]) != 5:
+        raise Unparsed("call of the exact predicate")
+    args = []
+    for a in asg[2]:
+        if a[0] != 'path' or a[1][0] not in lets:
+            raise Unparsed("argument of the exact predicate")
+        x = lets[a[1][0]]
+        if a[1][0] == 'dual':
+            raise Unparsed("argument of the exact predicate")
+        args.append(describe_point(x))
+    if lets.get('dual') != ('field', ('index', ('field', ('path', ['self']), 'vertices'), ('path', ['i'])), 'dual'):
+        raise Unparsed("dual of the tested vertex")
+    removed_then = ws[2][1][2][1]
+    swaps = any(s[0] == 'expr' and s[1][0] == 'mcall' and s[1][2] == 'swap' for s in removed_then)
+    out.append("/-- the decision `clip_by_plane` takes for one vertex (`true` = removed): `filter` = `HalfSpace::clip`, `exact` = exact predicate -/\n"
+               "def clipRemoved (filter exact : α) : Bool := Id.run do\n  let mut clip := filter\n  if %s then\n    clip := exact\n  return %s\n" % (c1, c2))
+    out.append("/-- the five points handed to the exact predicate, in order -/\ndef exactArgs : List String := [%s]\n" % ', '.join('"%s"' % a for a in args))
+    out.append("/-- a removed vertex is swapped to the tail of the vertex array -/\ndef removedSwappedToTail : Bool := %s\n" % ('true' if swaps else 'false'))
+    # new vertices
+    ifr = find_stmt(blk[1] + ([('expr', blk[2])] if blk[2] is not None else []), lambda s: s[0] == 'expr' and s[1][0] == 'if')
+    if ifr is None:
+        raise Unparsed("`if num_r > 0` block")
+    fl = find_stmt(ifr[1][2][1], lambda s: s[0] == 'for')
+    if fl is None or fl[1] != ('pvar', 'next') or fl[2] != ('path', ['boundary']):
+        raise Unparsed("new vertex loop")
+    push = fl[3][1][0]
+    if not (push[0] == 'expr' and push[1][0] == 'mcall' and push[1][2] == 'push' and push[1][3][0][0] == 'call' and push[1][3][0][1] == ('path', ['Vertex', 'from_dual'])):
+        raise Unparsed("new vertex construction")
+    nv = push[1][3][0][2][:3]
+    if any(a[0] != 'path' for a in nv):
+        raise Unparsed("new vertex arguments")
+    adv = fl[3][1][1:] == [('assign', '=', ('path', ['cur']), ('path', ['next']))]
+    out.append("/-- dual triple of a new vertex along the boundary cycle -/\ndef newVertexDual : List String := [%s]\n" % ', '.join('"%s"' % a[1][0] for a in nv))
+    out.append("/-- the walk advances `cur = next` after each new vertex -/\ndef newVertexWalkAdvances : Bool := %s\n" % ('true' if adv else 'false'))
+    tk = find_stmt(ifr[1][2][1], lambda s: s[0] == 'let' and s[2] == ('pvar', 'boundary'))
+    chain = method_chain(tk[4]) if tk is not None else []
+    take = None
+    if tk is not None and tk[4][0] == 'mcall' and tk[4][2] == 'take':
+        take = ' '.join(flatten_expr(tk[4][3][0]))
+    out.append("/-- the cycle is walked once around and back to its start: `%s`, take(%s) -/\ndef boundaryWalk : List String := [%s]\ndef boundaryWalkTake : String := \"%s\"\n" %
+               ('.'.join(chain), take, ', '.join('"%s"' % c for c in chain), take))
+    return '\n'.join(out)
+
+
+def gen_rightloc():
+    out = [VARS]
+    # ---- HalfSpace::right_loc
+    ht = tokenize(strip_attrs_cfg(read('src/voronoi/half_space.rs')))
+    params, body, _ = find_fn_in_impls(ht, 'HalfSpace', 'right_loc')
+    blk = parse_body(body)
+    if blk[1] or blk[2] is None or blk[2][0] != 'iflet':
+        raise Unparsed("right_loc body")
+
+    class RL(ProcEmitter):
+        def expr(self, e, env):
+            if e == ('index', ('path', ['generators']), ('path', ['right_idx'])) and env.get('right_idx') == ('right_idx', 'Idx'):
+                return 'right_gen_loc', 'GenLoc'
+            if e == ('index', ('path', ['generators']), ('path', ['left_idx'])):
+                return 'left_loc', 'GenLoc'
+            if e == ('field', ('path', ['self']), 'shift'):
+                return 'shift', 'OptV3'
+            if e[0] == 'iflet' and e[2] == ('field', ('path', ['self']), 'right_idx'):
+                pat = e[1]
+                if not (pat[0] == 'pctor' and pat[1] == ['Some'] and pat[2] == [('pvar', 'right_idx')]) or e[4] is None:
+                    raise Unparsed("right_loc pattern")
+                env2 = dict(env)
+                env2['right_idx'] = ('right_idx', 'Idx')
+                a, ta = self.block_value(e[3], env2)
+                b, tb = self.block_value(e[4], dict(env))
+                if ta != tb:
+                    raise Unparsed("right_loc branch types")
+                return "(match right_gen with\n    | some right_gen_loc => %s\n    | none => %s)" % (a, b), ta
+            return ProcEmitter.expr(self, e, env)
+    pe = RL('HalfSpace')
+    t, ty = pe.expr(blk[2], {'self': ('self_', 'HalfSpace')})
+    if ty != 'V3':
+        raise Unparsed("right_loc type")
+    out.append("/-- `HalfSpace::right_loc` (`right_gen` = position of `generators[right_idx]` when there is a right generator) -/\n"
+               "def rightLoc (self_ : HalfSpaceM α) (right_gen : Option (V3 α)) (shift : Option (V3 α)) (left_loc : V3 α) : V3 α :=\n  %s\n" % t)
+    return '\n'.join(out)
+
+
+def flatten_expr(e):
+    if e[0] == 'bin':
+        return flatten_expr(e[2]) + [e[1]] + flatten_expr(e[3])
+    if e[0] == 'field':
+        return flatten_expr(e[1]) + ['.', e[2]]
+    if e[0] == 'path':
+        return ['::'.join(e[1])]
+    if e[0] == 'num':
+        return [e[1]]
+    if e[0] == 'paren':
+        return ['('] + flatten_expr(e[1]) + [')']
+    raise Unparsed("expression in take()")
+
+
+# --------------------------------------------------------------------------
+# Fragment 10: keys and shifts of the periodic best-first search, src/rtree_nn.rs (C06, C17)
+# --------------------------------------------------------------------------
+
+def emit_method(pe, lean_name, self_name, self_ty, params, body, extra_env=None, doc=''):
+    """translate a method `fn f(&self | &mut self | self | mut self, v: DVec3, ..)`; a method without value returns `self`"""
+    env = dict(extra_env or {})
+    binders = []
+    mut_self = False
+    for nm, ty in params_of(params):
+        if nm == 'self':
+            env['self'] = (self_name, self_ty)
+            binders.append("(%s : %s)" % (self_name, extract2.LTY[self_ty]))
+            mut_self = True
+        elif nm in env:
+            binders.append("(%s : %s)" % (env[nm][0], extract2.LTY[env[nm][1]]))
+        else:
+            t = pe.decl_type(ty)
+            env[nm] = (nm, t)
+            binders.append("(%s : %s)" % (nm, extract2.LTY[t]))
+    blk = parse_body(body)
+    lines = ["  let mut %s := %s" % (self_name, self_name)] if mut_self else []
+    pe.stmts(blk[1], env, lines, "  ")
+    if blk[2] is None:
+        if not mut_self:
+            raise Unparsed("method %s has no value" % lean_name)
+        t, ty = self_name, self_ty
+    else:
+        t, ty = pe.expr(blk[2], env)
+    return "/-- %s -/\ndef %s %s : %s := Id.run do\n%s\n  return %s\n" % (doc, lean_name, ' '.join(binders), extract2.LTY[ty], '\n'.join(lines), t)
+
+
+def int_lit(e):
+    if e[0] == 'num':
+        return int(e[1])
+    if e[0] == 'un' and e[1] == '-' and e[2][0] == 'num':
+        return -int(e[2][1])
+    raise Unparsed("integer literal")
+
+
+def range_pair(e):
+    if e[0] == 'bin' and e[1] == '..=':
+        return int_lit(e[2]), int_lit(e[3])
+    if e[0] == 'mcall' and e[2] == 'clone' and e[1][0] == 'path':
+        return e[1][1][0]
+    raise Unparsed("inclusive range")
+
+
+def gen_nn():
+    out = [VARS]
+    toks = tokenize(strip_attrs_cfg(read('src/rtree_nn.rs')))
+    # reported shift: closure of wrapping_nn_iter
+    _, body, _ = find_fn(toks, 'wrapping_nn_iter')
+    blk = parse_body(body)
+
+    def find_closure(e):
+        if isinstance(e, tuple):
+            if e and e[0] == 'closure':
+                return e
+            for x in e:
+                r = find_closure(x)
+                if r:
+                    return r
+        elif isinstance(e, list):
+            for x in e:
+                r = find_closure(x)
+                if r:
+                    return r
+        return None
+    cl = find_closure(blk[2])
+    if cl is None or len(cl[1]) != 1 or cl[1][0][0] != 'ptuple' or cl[1][0][1][-1] != ('pvar', 'shift') or cl[2][0] != 'block':
+        raise Unparsed("closure of wrapping_nn_iter")
+    pe = ProcEmitter('Plane')
+    env = {'shift': ('shift', 'A3')}
+    lines = []
+    pe.stmts(cl[2][1], env, lines, "  ")
+    tail = cl[2][2]
+    if tail is None or tail[0] != 'tuple' or len(tail[1]) != 2 or tail[1][0] != ('mcall', ('path', ['g']), 'id', []):
+        raise Unparsed("result of the closure of wrapping_nn_iter")
+    t, ty = pe.expr(tail[1][1], env)
+    if ty != 'OptV3':
+        raise Unparsed("reported shift type")
+    out.append("/-- the shift `wrapping_nn_iter` reports for the query shift of a visited leaf -/\ndef reportedShift (shift : V3 α) : Option (V3 α) :=\n" +
+               '\n'.join(lines) + "\n  %s\n" % t)
+    # leaf key
+    gs, ge = find_impl(toks, ['WrappingPointDistance', 'for', 'Generator'])
+    params, body, _ = find_fn(toks[gs:ge], 'wrapping_distance_2')
+    pe = ProcEmitter('Plane')
+    out.append(emit_method(pe, 'wrapPointDist2', 'self_loc', 'GenLoc', params, body,
+                           {'point': ('point', 'A3'), 'shift': ('shift', 'A3')}, '`Generator::wrapping_distance_2`: key of a leaf under a query shift'))
+    # envelope key
+    es, ee = find_impl(toks, ['WrappingEnvelope', 'for', 'AABB'])
+    params, body, _ = find_fn(toks[es:ee], 'wrapping_distance_2')
+    blk = parse_body(body)
+    inner = [s for s in blk[1] if s[0] == 'fn']
+    pe = ProcEmitter('Plane')
+    pe.local_fns = {}
+    for f in inner:
+        fe = ProcEmitter('Plane')
+        fenv = {}
+        fb = []
+        for nm, ty in params_of(f[2]):
+            fenv[nm] = (nm, fe.decl_type(ty))
+            fb.append("(%s : %s)" % (nm, extract2.LTY[fenv[nm][1]]))
+        if f[3][1] or f[3][2] is None:
+            raise Unparsed("nested fn %s" % f[1])
+        t, ty = fe.expr(f[3][2], fenv)
+        lname = 'nn' + f[1][0].upper() + f[1][1:]
+        out.append("/-- nested `fn %s` of `AABB::wrapping_distance_2` -/\ndef %s %s : %s :=\n  %s\n" % (f[1], lname, ' '.join(fb), extract2.LTY[ty], t))
+        pe.local_fns[f[1]] = (ty, lname, [fenv[nm][1] for nm, _ in params_of(f[2])])
+    body2 = ('block', [s for s in blk[1] if s[0] != 'fn'], blk[2])
+    env = {'self': ('self_', 'Box3'), 'point': ('point', 'A3'), 'shift': ('shift', 'A3')}
+    lines = []
+    pe.stmts(body2[1], env, lines, "  ")
+    t, ty = pe.expr(body2[2], env)
+    if ty != 'F':
+        raise Unparsed("envelope key type")
+    out.append("/-- `AABB::wrapping_distance_2`: key of an inner node (its envelope) under a query shift -/\n"
+               "def wrapEnvDist2 (self_ : Box3 α) (point shift : V3 α) : α := Id.run do\n" + '\n'.join(lines) + "\n  return %s\n" % t)
+    # image ranges and the query shift of `RTreeWrappingNearestNeighbourIter::new`
+    _, body, _ = find_fn_in_impls(toks, 'RTreeWrappingNearestNeighbourIter', 'new')
+    blk = parse_body(body)
+    ranges = {}
+    for s in blk[1]:
+        if s[0] == 'let' and s[2][0] == 'pvar' and s[2][1] in ('j_range', 'k_range'):
+            m = s[4]
+            if m[0] != 'match' or m[1] != ('path', ['dimensionality']):
+                raise Unparsed("image range form")
+            arms = []
+            for pat, guard, b in m[2]:
+                alts = extract2.dim_alts(pat)
+                lo, hi = range_pair(b)
+                arms.append("| %s => (%d, %d)" % (' | '.join('.' + a for a in alts) if alts else '_', lo, hi))
+            ranges[s[2][1]] = arms
+    if set(ranges) != {'j_range', 'k_range'}:
+        raise Unparsed("image ranges")
+    loops = []
+    cur = find_stmt(blk[1], lambda s: s[0] == 'for')
+    inner_stmts = None
+    while cur is not None:
+        if cur[1][0] != 'pvar':
+            raise Unparsed("image loop variable")
+        loops.append((cur[1][1], range_pair(cur[2])))
+        inner_stmts = cur[3][1]
+        cur = find_stmt(cur[3][1], lambda s: s[0] == 'for')
+    if [l[0] for l in loops] != ['i', 'j', 'k'] or loops[0][1] != (-1, 1) or loops[1][1] != 'j_range' or loops[2][1] != 'k_range':
+        raise Unparsed("image loops %r" % (loops,))
+    out.append("/-- image offsets along x: `for i in -1..=1` -/\ndef imageRangeI : Int × Int := (%d, %d)\n" % loops[0][1])
+    out.append("/-- image offsets along y per dimensionality -/\ndef imageRangeJ (dimensionality : Dim) : Int × Int :=\n  match dimensionality with %s\n" % ' '.join(ranges['j_range']))
+    out.append("/-- image offsets along z per dimensionality -/\ndef imageRangeK (dimensionality : Dim) : Int × Int :=\n  match dimensionality with %s\n" % ' '.join(ranges['k_range']))
+    sh = find_stmt(inner_stmts, lambda s: s[0] == 'let' and s[2] == ('pvar', 'shift'))
+    if sh is None:
+        raise Unparsed("query shift")
+    pe = ProcEmitter('Plane')
+    t, ty = pe.expr(sh[4], {'i': ('i', 'F'), 'j': ('j', 'F'), 'k': ('k', 'F'), 'width': ('width', 'A3')})
+    if ty != 'A3':
+        raise Unparsed("query shift type")
+    out.append("/-- the query shift of image `(i, j, k)` -/\ndef queryShift (i j k : α) (width : V3 α) : V3 α :=\n  %s\n" % t)
+    ext = find_stmt(inner_stmts, lambda s: s[0] == 'expr' and s[1][0] == 'mcall' and s[1][2] == 'extend_heap')
+    ok = ext is not None and ext[1][3] == [('mcall', ('path', ['root']), 'children', []), ('path', ['shift'])]
+    out.append("/-- every image pushes the children of the root with its shift -/\ndef imagesPushRootChildren : Bool := %s\n" % ('true' if ok else 'false'))
+    return '\n'.join(out)
+
+
+# --------------------------------------------------------------------------
+# Fragment 11: `collect` / `finalize` of the built-in integrals (C01, C02, C04, C13, C14)
+# --------------------------------------------------------------------------
+
+def gen_integrals():
+    out = [VARS]
+    it = tokenize(strip_attrs_cfg(read('src/voronoi/integrals.rs')))
+    ft = tokenize(strip_attrs_cfg(read('src/voronoi/voronoi_face.rs')))
+    table = [
+        (it, ['CellIntegral', 'for', 'VolumeCentroidIntegral'], 'VolAcc', 'volCentroid'),
+        (it, ['CellIntegral', 'for', 'VolumeIntegral'], 'VolOnly', 'volOnly'),
+        (it, ['FaceIntegral', 'for', 'AreaCentroidIntegral'], 'FaceAcc', 'areaCentroid'),
+        (it, ['FaceIntegral', 'for', 'AreaIntegral'], 'AreaOnly', 'areaOnly'),
+        (ft, ['FaceIntegral', 'for', 'VoronoiFaceIntegral'], 'FaceNAcc', 'voronoiFace'),
+    ]
+    for toks, hdr, ty, name in table:
+        s0, e0 = find_impl(toks, hdr)
+        for meth in ('collect', 'finalize'):
+            params, body, _ = find_fn(toks[s0:e0], meth)
+            pe = ProcEmitter('Plane')
+            out.append(emit_method(pe, name + meth.capitalize(), 'self_', ty, params, body, None, '`%s::%s`' % (hdr[-1], meth)))
+    return '\n'.join(out)
+
 # --------------------------------------------------------------------------
 FRAGMENTS = [
     # (module name, source files, generator, imports)
@@ -1080,6 +1678,14 @@ FRAGMENTS = [
     ('Par', ['src/voronoi.rs'], gen_par, []),
     ('Geom', ['src/geometry.rs'], gen_geom, ['MVoro.Model.Geom']),
     ('HalfSpace', ['src/voronoi/half_space.rs'], gen_halfspace, ['MVoro.Model.Geom']),
+    ('DimInput', ['src/voronoi/generator.rs', 'src/voronoi.rs'], gen_diminput, ['MVoro.Model.Build']),
+    ('VertexRadius', ['src/voronoi/convex_cell.rs'], gen_vertexradius, ['MVoro.Model.Build', 'MVoro.Gen.Geom']),
+    ('CellInit', ['src/voronoi/convex_cell.rs'], gen_cellinit, ['MVoro.Model.Build']),
+    ('BuildStep', ['src/voronoi/convex_cell.rs'], gen_buildstep, ['MVoro.Model.Build']),
+    ('ClipVertex', ['src/voronoi/convex_cell.rs'], gen_clipvertex, ['MVoro.Model.Build']),
+    ('RightLoc', ['src/voronoi/half_space.rs'], gen_rightloc, ['MVoro.Model.Build', 'MVoro.Gen.Geom']),
+    ('NN', ['src/rtree_nn.rs'], gen_nn, ['MVoro.Model.Build']),
+    ('Integrals', ['src/voronoi/integrals.rs', 'src/voronoi/voronoi_face.rs'], gen_integrals, ['MVoro.Model.Build', 'MVoro.Gen.Geom']),
 ]
 
 
